@@ -7,7 +7,8 @@
 //
 // scenarios
 //   pool   w=<workers> g=<global cap> l=<local cap> steal=0|1 bal=<us, -1 unset> slp=<us a parent task sleeps after
-//          submitting its children> fin=dtor|stop prog=<program>
+//          submitting its children> idoff=<thread-id slots already taken: the workers' local queues start there>
+//          fin=dtor|stop prog=<program>
 //   inplace / newthread / refuse (pat=<pattern over a(ccept) r(efuse), indexed by task id, e.g. raar>)   prog=<program>
 //
 // program: threads separated by '_', operations by '.'; thread 0 of the program is the main
@@ -18,11 +19,15 @@
 //   x        stop()            (pool only; at most one in a program)
 //   u        wakeup_one_worker() (pool only)
 //   y        usleep(300)  (virtual)
+//   i        wait (bounded) until every worker is blocked in the global queue's pop (pool only)
+//   w        wait (bounded) until the root tasks submitted so far have submitted their children
+// hold=1: a task that has submitted children waits (bounded) until somebody has started each of them
 // children: odd child index -> execute, even -> submit.  task ids: root r = 1..9 in program text
 // order, child k of p = 10*p+k.
 #include <babylon/executor.h>
 
 #include <malloc.h>
+#include <string.h>
 
 #include <string>
 #include <thread>
@@ -61,6 +66,9 @@ bool g_stop_called = false;
 thread_local int tl_cur_sub = 0;
 int g_salt = 0;
 long g_slp = 0; // a task that has submitted children sleeps this long (virtual us) before it returns
+long g_hold = 0; // a task that has submitted children waits (bounded) until all of them have been started by somebody
+int g_parents_submitted = 0; // root tasks with children handed to the executor / that have submitted all their children
+int g_parents_spawned = 0;
 
 struct OpSpec {
   char op = 0;
@@ -136,6 +144,16 @@ int body(Node* n) {
     c->via_execute = (k % 2) == 1;
     spawn(c);
   }
+  if (n->nchild > 0 && n->parent == 0) g_parents_spawned++;
+  if (n->nchild > 0 && g_hold > 0) {
+    // staging only (no effect on what is judged): keep this worker busy while its children sit in a queue
+    for (int spin = 0; spin < 400; spin++) {
+      bool all = true;
+      for (int k = 1; k <= n->nchild; k++) all = all && g_nodes[n->id * 10 + k].runs > 0;
+      if (all) break;
+      ::usleep(100);
+    }
+  }
   if (n->nchild > 0 && g_slp > 0) ::usleep((useconds_t)g_slp);
   int ret = in * 2 + 1;
   n->out = ret;
@@ -169,6 +187,7 @@ void run_ops(const std::vector<OpSpec>& ops) {
         n->nchild = op.c;
         n->ngrand = op.g;
         n->via_execute = op.op == 'e';
+        if (n->nchild > 0) g_parents_submitted++;
         spawn(n);
         if (n->has_fut) mine.push_back(n);
       } break;
@@ -194,6 +213,20 @@ void run_ops(const std::vector<OpSpec>& ops) {
       } break;
       case 'y': {
         ::usleep(300);
+      } break;
+      case 'i': { // staging: until every worker sits in the global queue's pop (one pop ticket per worker beyond the pushes)
+        if (g_pool != nullptr) {
+          for (int spin = 0; spin < 4000; spin++) {
+            size_t push_idx, pop_idx; // raw reads: no schedule point, no trace event
+            memcpy(&push_idx, (const void*)&g_pool->_global_task_queue._next_push_index, sizeof push_idx);
+            memcpy(&pop_idx, (const void*)&g_pool->_global_task_queue._next_pop_index, sizeof pop_idx);
+            if (pop_idx >= push_idx + g_pool->_worker_number) break;
+            ::usleep(100);
+          }
+        }
+      } break;
+      case 'w': { // staging: until every root task with children submitted so far has submitted its children
+        for (int spin = 0; spin < 2000 && g_parents_spawned < g_parents_submitted; spin++) ::usleep(100);
       } break;
       default:
         break;
@@ -241,6 +274,13 @@ void scenario_pool(const vrun::Params& p) {
   ex->set_local_capacity((size_t)p.get("l", 0));
   ex->set_enable_work_stealing(p.get("steal", 0) != 0);
   g_slp = p.get("slp", 0);
+  g_hold = p.get("hold", 0);
+  // idoff=N: N slots of the thread-id allocator behind ThreadPoolExecutor's EnumerableThreadLocal<TaskQueue> are
+  // already taken (as by N threads of earlier pools that are still alive), so the workers' local queues get the
+  // slots N, N+1, ... : with N = 126 / 127 they straddle the 128-entry block boundary of the ConcurrentVector
+  for (long i = 0, idoff = p.get("idoff", 0); i < idoff; i++) {
+    ::babylon::internal::concurrent_id_allocator::IdAllocatorFotType<::babylon::ThreadPoolExecutor::TaskQueue, false>::instance().allocate();
+  }
   long bal = p.get("bal", -1);
   if (bal >= 0) ex->set_balance_interval(::std::chrono::microseconds {bal});
   g_ex = ex;
@@ -346,7 +386,7 @@ void scenario_refuse(const vrun::Params& p) {
 
 struct Reg {
   Reg() {
-    vrun::add("pool", scenario_pool, "w=2,g=1,l=0,steal=0,bal=-1,slp=0,fin=dtor,prog=e_e");
+    vrun::add("pool", scenario_pool, "w=2,g=1,l=0,steal=0,bal=-1,slp=0,hold=0,idoff=0,fin=dtor,prog=e_e");
     vrun::add("inplace", scenario_inplace, "prog=e11");
     vrun::add("newthread", scenario_newthread, "prog=e1");
     vrun::add("refuse", scenario_refuse, "pat=r,prog=e.s");
